@@ -153,6 +153,51 @@ fn related_pair() -> BoxedStrategy<(String, String)> {
     .boxed()
 }
 
+/// the greatest tag on a commit, through the real binary and a real repository (the in-process
+/// max-tag sub-check does not see how zerv lists the tags of a commit)
+#[derive(Debug, Clone, Hash, serde::Serialize, serde::Deserialize)]
+pub struct GitTagsCase {
+    pub tags: Vec<String>,
+    pub decoy: Option<usize>,
+    pub commits_after: u8,
+    pub auto: bool,
+}
+fn check_git_max(c: &GitTagsCase, cx: &mut Cx) -> Res {
+    let (repo, made) = match crate::gitlab::repo_with_tags(&c.tags, c.decoy, c.commits_after) {
+        Ok(x) => x,
+        Err(e) => {
+            infra(format!("cannot build the repository: {e}"));
+            return Ok(());
+        }
+    };
+    if made.is_empty() {
+        return Ok(());
+    }
+    let fmt = if c.auto { "auto" } else { "semver" };
+    let o = crate::proc::run(&crate::proc::Spec { args: crate::cli::sv(&["version", "-C", &repo.path(), "--input-format", fmt, "--output-format", "zerv"]), cwd: Some("/".into()), ..Default::default() });
+    if o.timed_out {
+        infra("zerv timed out");
+        return Ok(());
+    }
+    cx.nt_if(made.len() >= 2);
+    cx.label_if(c.decoy.is_some(), "branch-named-like-a-tag");
+    ensure!(o.code == Some(0), "zerv failed (exit {:?}: {}) on a commit tagged {made:?}", o.code, o.err_str().trim().chars().take(300).collect::<String>());
+    let z = <zerv::version::Zerv as FromStr>::from_str(&o.out_str()).map_err(|e| Bad::Fail(format!("output does not parse: {e}")))?;
+    let got = z.vars.last_tag_version.clone().unwrap_or_default();
+    cx.note(|| format!("{made:?} (decoy {:?}) -> {got}", c.decoy));
+    ensure!(made.contains(&got), "last_tag_version {got:?} is not one of the tags {made:?}");
+    if c.auto {
+        return Ok(()); // auto may elect PEP 440 for names both dialects accept; C02 judges the election
+    }
+    let g = osem::parse_v(&got).ok_or_else(|| Bad::Fail(format!("chosen tag {got:?} is not SemVer")))?;
+    for t in &made {
+        if let Some(o) = osem::parse_v(t) {
+            ensure!(osem::cmp(&o, &g) != Ordering::Greater, "zerv chose {got} on a commit tagged {made:?}, but {t} is greater ({})", repo.log.join("; "));
+        }
+    }
+    Ok(())
+}
+
 pub fn property() -> Property {
     let pairs = EnumSub::<(String, String)>::new(
         "enum-pairs",
@@ -248,11 +293,23 @@ pub fn property() -> Property {
         },
     )
     .floor(0.5);
+    let git_max = RandomSub::<GitTagsCase>::new(
+        "git-max-tag",
+        (150, 2_500),
+        |_| {
+            let tag = (0..2usize, 0..400usize, gens::pick(&BUILDS), any::<bool>()).prop_map(|(c, p, b, v)| format!("{}{}{}{}", if v { "v" } else { "" }, ["1.4.0", "1.4.1"][c], pre_lists()[p], b));
+            (proptest::collection::vec(prop_oneof![3 => tag, 1 => big_version()], 1..6), proptest::option::weighted(0.4, 0usize..6), 0u8..2, prop::bool::weighted(0.2))
+                .prop_map(|(tags, decoy, commits_after, auto)| GitTagsCase { tags, decoy, commits_after, auto })
+                .boxed()
+        },
+        check_git_max,
+    )
+    .shrink_iters(40);
     Property {
         id: "C10",
         rule: "cases = ordered pairs / triples of SemVer strings and tag lists. Exhaustive: all 3200^2 ordered pairs of a small universe and pre-release triples; random: large numbers (to u64::MAX), identifier lists up to 8, pairs sharing a prefix. Oracle: independent SemVer 2.0.0 §11 comparator on digit strings; laws (antisymmetry, transitivity, == iff Equal) checked without the oracle. Non-trivial = the strings of the pair/triple differ (pairs) or are pairwise different (triples), tag lists with >=2 tags; distinct = distinct tuples.",
         assumptions: vec!["all generated versions have numbers <= u64::MAX (the parser's documented range)"],
-        subs: vec![pairs.boxed(), triples_enum.boxed(), rand_pairs.boxed(), rand_triples.boxed(), max_tag.boxed()],
+        subs: vec![pairs.boxed(), triples_enum.boxed(), rand_pairs.boxed(), rand_triples.boxed(), max_tag.boxed(), git_max.boxed()],
         known_repro: vec![],
     }
 }
